@@ -311,12 +311,17 @@ class NetAddr():
         res += self._strpad4(len(msg[1:]) + 1)  # Type tag string.
         for val in msg[1:]:
             if isinstance(val, str):
-                res += self._strpad4(len(val))
+                res += self._strpad4(len(val.encode('utf-8')))
             elif isinstance(val, (bytes, bytearray, memoryview)):
-                res += len(val) + 4  # Blob size bytes.
+                res += 4 + len(val) + (-len(val) & 3)  # Blob size bytes + pad.
             elif isinstance(val, list):
-                # Arrays are messages converted to blobs.
-                res += self._calc_msg_dgram_size(val) + 4  # Blob size bytes.
+                # Arrays are messages or bundles converted to blobs.
+                if not val:
+                    res += 4  # Empty lists are sent as zero.
+                elif isinstance(val[0], str):
+                    res += self._calc_msg_dgram_size(val) + 4  # Blob size bytes.
+                else:
+                    res += self._calc_bndl_dgram_size(val[1:]) + 4
             else:
                 res += 4  # Everything else (sent by sc3, no doubles).
         return res
